@@ -13,7 +13,7 @@ BOUNDS = ("Plate / slice operations on 2x3 plates (2x2 for many-to-one) with non
           "(water+NaCl+lipase on the source side, water on the destination side) and a symbolic quantity: transfer "
           "over the 18 non-overlapping geometries of C01 (incl. 3 with slices of slices) (row/col/rect/stepped/list/1->all/all->1/whole Plate either "
           "side/container->plate,list/plate,col->container/same plate disjoint) in uL and mg; remove (water, SOLID, "
-          "ENZYME) and fill_to (uL, mg, umol) on plate/row/col/rect/stepped/well/list selections; each also as a "
+          "ENZYME) and fill_to (uL, mg, umol) on plate/row/col/rect/stepped/well/list/slice-of-slice selections; each also as a "
           "recipe step through bake, alone and after an earlier step that changed every well of the plate; 12 shape combinations that must be rejected. Oracle: the same stand-alone "
           "Container operation applied to free-standing copies of the addressed wells, folded in row-major order, "
           "executed symbolically by the same engine. Lite rounding model; 'tight' precondition q < held per source well.")
@@ -33,6 +33,8 @@ SEL = {
     'tuple': (('A', 2), [(0, 1)]),
     'list': (['A:3', (2, 1)], [(0, 2), (1, 0)]),
     'rowlabel': ('B', [(1, 0), (1, 1), (1, 2)]),
+    'sub': (('SUB', (S(None), S(2, 3)), (S(0, 2), S(1, 2))), [(0, 2), (1, 2)]),
+    'sublist': (('SUB', ['A:1', 'B:2', 'A:3'], S(1, None)), [(1, 1), (0, 2)]),
 }
 BAD_SHAPES = [  # (src item, dst item) on two 2x3 plates: neither 1->N, N->1 nor equal shapes
     ((1, S(None)), (S(None), 1)), ((S(None), S(1, 2)), (1, S(None))), (S(None), (1, S(None))),
@@ -182,6 +184,16 @@ def h_transfer(h):
         r_dst = res['dst'] if dst_sel == 'C' else (res['P'] if same else res['Q'])
     h.outcome = 'ok'
     region = p['via']
+    if p['via'] == 'direct':
+        # the same call again with the very same argument objects (slices included) must give the same answer
+        if dst_sel == 'C':
+            r_src2, r_dst2 = C.transfer(src_arg, dst_arg, quantity)
+        else:
+            r_src2, r_dst2 = Plate.transfer(src_arg, dst_arg, quantity)
+        for a_, b_ in ((r_src, r_src2), (r_dst, r_dst2)):
+            for wa, wb in zip([a_] if isinstance(a_, C) else list(a_.wells.flatten()),
+                              [b_] if isinstance(b_, C) else list(b_.wells.flatten())):
+                _require_same(h, 'transfer:repeatable', wb, wa, region, "repeating the call with the same arguments")
     got_src = [r_src] if src_sel == 'C' else [r_src.wells[rc] for rc in src_cells]
     got_dst = [r_dst] if dst_sel == 'C' else [r_dst.wells[rc] for rc in dst_cells]
     for i, (g, w) in enumerate(zip(got_src, o_src)):
@@ -233,7 +245,7 @@ def h_remove(h):
     P = _mk_plate(h, lib, 'P', (2, 3), ['water', 'NaCl', 'lipase'], lo=0)
     item, addressed = SEL[p['sel']]
     what = _what(h, lib, p['what'])
-    target = P if item == 'PLATE' else P[item]
+    target = select(P, item)
     if p['via'] == 'recipe2':
         # the step under test comes second: it must act on the plate as the first step left it
         stock, q0, pre = _pre_step(h, lib, P)
@@ -276,7 +288,7 @@ def h_fill_to(h):
     for rc in wells:
         h.assume(h.gt(T * PREFIX[prefix], lib.total(P.wells[rc].contents, base) + margin))
     water = lib['water']
-    target = P if item == 'PLATE' else P[item]
+    target = select(P, item)
     quantity = f"{T} {p['unit']}"
     region = p['via'] + ('/slice' if item != 'PLATE' else '/plate')
     pre = None
